@@ -61,6 +61,8 @@ Record dcase := {
   d_pre : bool;                            (* the context was cancelled before Send was called *)
   d_trace : list ev;
   d_quiet : bool;                          (* every harness node returned and the grace period passed: the trace is final *)
+  d_leak : bool;                           (* goroutine dump after Send returned and all nodes returned: a goroutine created
+                                              under this Send (library or context-package code) is still there *)
   d_nodecalls : list (N * N);              (* the nodes' own log: (object, event given) per Process invocation *)
   d_noderets : list (N * N * outcome);     (* the nodes' own log: (object, event given, what it returned) per return *)
   d_event0_ok : bool;                      (* every first-node event carried the sent type, payload, a time, no formats *)
@@ -276,7 +278,8 @@ Definition run_case (c : dcase) : list (N * N * kind) :=
     (if d_event0_ok c then [] else [KEvent0]) ++
     (if returned_seen (d_trace c) then [] else [KHang]) ++
     (if d_quiet c && negb (all_exited (d_trace c) && (closed_seen (d_trace c) || match model_roots c with None => true | _ => false end))
-     then [KLeak] else []) in
+     then [KLeak] else []) ++
+    (if d_leak c then [KLeak] else []) in
   match model_roots c with
   | None =>
       (* no graph: Send must return an error, an empty Status, and invoke nothing *)
